@@ -19,6 +19,7 @@ QUERIES = [
     ("Mshort", "bad_indices shorthand_model_bad shorthand_cases"),
     ("Oshort", "bad_indices shorthand_oracle_bad shorthand_cases"),
     ("Knote", "bad_indices parse_kind_note parse_cases"),
+    ("Ostdin", "map parse_oracle_code stdin_cases"),
 ]
 
 CODE_SIG = {
@@ -32,11 +33,53 @@ CODE_SIG = {
 }
 
 
+def cli_stage(recs, limit=24):
+    """Feed configurations to the real binary on its standard input; it must not
+    crash, accept what the hook run accepted, and name the same <stdin> line."""
+    import re
+    import shutil
+    import tempfile
+    out = {"ran": 0, "accepted": 0, "rejected_at_same_line": 0, "bad": []}
+    if not recs:
+        return out
+    try:
+        exe = vlib.build_bins(["shakespeare"])["shakespeare"]
+    except vlib.BuildError:
+        return out
+    acc = [r for r in recs if r["Obs"]["Kind"] == "accepted"][:limit // 3]
+    rej = [r for r in recs if r["Obs"]["Kind"] == "rejected" and r["Obs"].get("HasPos")][:limit - len(acc)]
+    d = tempfile.mkdtemp(prefix="shk-c09-cli-")
+    env = dict(vlib.GOENV, PATH="/nonexistent")
+    try:
+        for rec in acc + rej:
+            args = [exe, "-n", "-p"] + ["-D" + x for x in (rec["In"].get("Defines") or [])] + ["-"]
+            rc, o = vlib.run(args, timeout=30, cwd=d, env=env, input=rec["In"]["Stdin"])
+            out["ran"] += 1
+            if rc == 124:
+                out["bad"].append(("parse-timeout", "`shakespeare -n -p -` does not terminate on this standard input", rec, o))
+            elif re.search(r"^(panic:|fatal error:)", o, re.M) or "goroutine 1 [running]" in o:
+                out["bad"].append(("stdin-position-panic", "`shakespeare -n -p -` crashes on this standard input: %s" % (re.search(r"^(panic:|fatal error:).*", o, re.M) or [""])[0], rec, o))
+            elif rec["Obs"]["Kind"] == "accepted":
+                if rc != 0:
+                    out["bad"].append(("cli-stdin-differs", "`shakespeare -n -p -` refuses (exit %d) a configuration the same parser accepts through the hook" % rc, rec, o))
+                else:
+                    out["accepted"] += 1
+            else:
+                want = "<stdin>:%d:" % rec["Obs"]["Pos"]["Line"] if rec["Obs"]["Pos"]["File"] == "<stdin>" else None
+                if rc == 0 or (want and want not in o):
+                    out["bad"].append(("cli-stdin-differs", "`shakespeare -n -p -` (exit %d) does not report %s as the hook run does" % (rc, want), rec, o))
+                else:
+                    out["rejected_at_same_line"] += 1
+    finally:
+        shutil.rmtree(d, ignore_errors=True)
+    return out
+
+
 def run(tier, seed):
     res = vlib.Result(PID, tier, seed, level="proof")
     res.assumptions = [
         "NOT transcribed, hence carried by the differential fuzzing of this check only: the regexp-dispatched clause parsers (role/cast/script/audience/interpretation lines), checkIdent, validateStoryLine, compileV2 and the third-party expression compiler govaluate; in the Coq model their verdict on a logical line is an arbitrary function (every theorem holds for all of them)",
-        "file system model: regular files and directories of a private temporary root (renamed /r/t), its empty parent, no symlinks; os.Open errors other than not-exist are NUL in the name, a file used as a directory, names over 255 / paths over 4095 bytes; generated include names never climb two levels above the root; standard input is empty (`include -`); `git diff` (maybeRunDiff) is made to fail by an empty PATH",
+        "file system model: regular files and directories of a private temporary root (renamed /r/t), its empty parent, no symlinks; os.Open errors other than not-exist are NUL in the name, a file used as a directory, names over 255 / paths over 4095 bytes; generated include names never climb two levels above the root; standard input is empty in the Coq model (`include -`); configurations that arrive on standard input are checked by the oracle and through the real CLI only; `git diff` (maybeRunDiff) is made to fail by an empty PATH",
         "strings.TrimSpace, filepath.Join/Dir/Clean, regexp `\\s`/`\\S`/`\\w`, paramRe and editRe are hand-modelled at byte level and exercised by the correspondence cases, not verified against the Go library",
         "the failed first read of a directory is reported at line 1 of that directory: the one position the theorem and the oracle allow that is not a line of a regular input file",
         "byte strings of the case files are packed into Coq primitive 63-bit integers and unpacked by Corr/C09.v (used for decoding cases only; no theorem depends on it)",
@@ -61,7 +104,7 @@ def run(tier, seed):
         "evaluations": summary["evaluations"],
         "distinct_nontrivial": summary["distinct_nontrivial"],
         "exhaustive": False,
-        "rule": "streams: (1) grammar-derived valid configurations covering every clause kind of the manual (see clause_kinds; cast multiplicities 1-12, zero and negative, written out or through a parameter), laid out over files with includes (sibling, sub-directory, -I only, by path), continuations, comments, odd indentation, missing final newline; (2) the same with ONE fault at a position the generator knows (bogus clause, missing include, one undefined parameter, three or more undefined parameters in one clause, unterminated continuation, include of a directory) — oracle = rejected at exactly that file, line and include chain (the message wording is not judged); (3) 1-3 random mutations of (1) (delete/swap/duplicate bytes and lines, truncate, backslash at line end, spliced keywords and odd bytes); (4) arbitrary bytes (all bytes / printable / token soup / newline-backslash-tilde heavy); (5d) parameter values holding ~name~ tokens — themselves, cycles of 2-3, undefined names, chains — from -D and from defaults, used in a later title / attention / with / expression / include / repeat time / author; (5e) storylines, edit results and repeat-from patterns holding multi-byte runes whose low byte or whose UTF-8 bytes equal defined scene letters (also single-byte Latin-1 scene shorthands); one in three include graphs and one in four planted faults with a percent sign in file and directory names (percent-s, percent-d, 100-percent, percent-20) of main, included and -I paths; (5b) cast multiplicities from a list of boundary values (most negative int64 .. 40, signs, non-numbers; bounded above), direct / default / -D; (5) include graphs (chains to depth 12, diamonds, self/mutual/3-cycles, directories, missing files, -I only, shadowing, `..`) with the reference reading order computed by an independent recursive expander; (6) the reader alone, every logical line with position and include chain compared exactly; (5c) the space characters on which the regexp classes and strings.TrimSpace disagree (U+000B, 0085, 00A0, 1680, 2000-200A, 2028, 2029, 202F, 205F, 3000) written instead of / before / after / twice / as separator of ONE token of a valid configuration, every scene shorthand x every character exhaustively; (7) the `edit` splitter on structured and random commands; (8) `scene TOKEN mood starts red` for all 256 single bytes and those runes, compared with the model of validateShorthand (exhaustive); corpus of past failures first. Every experiment runs in a CHILD process (the harness re-executed with -child, gob over pipes) under a %ds watchdog, a 1 GiB heap limit (and an address-space cap) and recover(): a case that kills the process (stack overflow, os.Exit) or hangs is attributed to itself, the child is replaced; rendering the diagnostic (RenderError and Error()) is part of every case. distinct_nontrivial = distinct (file set, -D list) with at least 8 bytes of input, counted by content." % 10,
+        "rule": "streams: (1) grammar-derived valid configurations covering every clause kind of the manual (see clause_kinds; cast multiplicities 1-12, zero and negative, written out or through a parameter), laid out over files with includes (sibling, sub-directory, -I only, by path), continuations, comments, odd indentation, missing final newline; (2) the same with ONE fault at a position the generator knows (bogus clause, missing include, one undefined parameter, three or more undefined parameters in one clause, unterminated continuation, include of a directory) — oracle = rejected at exactly that file, line and include chain (the message wording is not judged); (3) 1-3 random mutations of (1) (delete/swap/duplicate bytes and lines, truncate, backslash at line end, spliced keywords and odd bytes); (4) arbitrary bytes (all bytes / printable / token soup / newline-backslash-tilde heavy); (5d) parameter values holding ~name~ tokens — themselves, cycles of 2-3, undefined names, chains — from -D and from defaults, used in a later title / attention / with / expression / include / repeat time / author; (5e) storylines, edit results and repeat-from patterns holding multi-byte runes whose low byte or whose UTF-8 bytes equal defined scene letters (also single-byte Latin-1 scene shorthands); one in three include graphs and one in four planted faults with a percent sign in file and directory names (percent-s, percent-d, 100-percent, percent-20) of main, included and -I paths; (5f) the real standard-input path: the configuration is `-` or a file says `include -`, with the text on the child's stdin — valid configurations and one planted fault each, judged by the position / quoted-line / no-crash oracle (the Coq model takes stdin as empty, so these cases are not compared with it); (5b) cast multiplicities from a list of boundary values (most negative int64 .. 40, signs, non-numbers; bounded above), direct / default / -D; (5) include graphs (chains to depth 12, diamonds, self/mutual/3-cycles, directories, missing files, -I only, shadowing, `..`) with the reference reading order computed by an independent recursive expander; (6) the reader alone, every logical line with position and include chain compared exactly; (5c) the space characters on which the regexp classes and strings.TrimSpace disagree (U+000B, 0085, 00A0, 1680, 2000-200A, 2028, 2029, 202F, 205F, 3000) written instead of / before / after / twice / as separator of ONE token of a valid configuration, every scene shorthand x every character exhaustively; (7) the `edit` splitter on structured and random commands; (8) `scene TOKEN mood starts red` for all 256 single bytes and those runes, compared with the model of validateShorthand (exhaustive); corpus of past failures first. Every experiment runs in a CHILD process (the harness re-executed with -child, gob over pipes) under a %ds watchdog, a 1 GiB heap limit (and an address-space cap) and recover(): a case that kills the process (stack overflow, os.Exit) or hangs is attributed to itself, the child is replaced; rendering the diagnostic (RenderError and Error()) is part of every case. distinct_nontrivial = distinct (file set, -D list) with at least 8 bytes of input, counted by content." % 10,
         "samples": summary["samples"],
         "distribution": {k: summary[k] for k in ("counts", "outcomes", "by_stream", "error_classes", "faults", "graph_shapes",
                                                   "clause_kinds", "grammar_texts_accepted", "grammar_texts_total",
@@ -78,12 +121,11 @@ def run(tier, seed):
         return res.finish()
     off = summary["offsets"]
     codes = L.global_codes(vals["Ocodes"])
-    parse = cases["parse"]
+    scodes = L.global_codes(vals["Ostdin"])
     seen = set()
-    for idx, code in enumerate(codes):
+    for rec, code in list(zip(cases["parse"], codes)) + list(zip(cases.get("stdin") or [], scodes)):
         if code == 0:
             continue
-        rec = parse[idx]
         inp, obs = rec["In"], rec["Obs"]
         if code == 1:
             sig = L.panic_signature(obs, inp)
@@ -97,6 +139,10 @@ def run(tier, seed):
             if inp.get("HasExpect"):
                 what += "; the generator planted a %s fault at %s:%d chain %s" % (
                     L.CLS.get(inp.get("ExpectCls")), inp["ExpectPos"]["File"], inp["ExpectPos"]["Line"], inp.get("ExpectChain"))
+        if inp.get("UseStdin"):
+            what += " [standard input holds part of the configuration: %s]" % ("the configuration is `-`" if inp["Main"] == "-" else "a file says `include -`")
+            if sig in ("include-directory-panic", "wraperr-panic"):
+                sig = "stdin-position-panic"
         if sig in seen:
             continue
         seen.add(sig)
@@ -131,6 +177,15 @@ def run(tier, seed):
         seen.add(ssig)
         res.violation(ssig, "the script clause %r (shorthand bytes %s) crashes the parser: %s" % (rec["Line"], rec["Cmd"].encode("utf-8", "surrogateescape").hex(), rec["Pan"]),
                       {"kind": "failing-input", "input": rec, "replay": "script / %s / end" % rec["Line"]})
+    # the same standard-input cases through the real command line (`shakespeare -n -p -`)
+    cli = cli_stage([r for r in (cases.get("stdin") or []) if r["In"]["Main"] == "-" and not r["In"]["Files"]])
+    res.coverage["cli_stdin"] = {k: cli[k] for k in ("ran", "accepted", "rejected_at_same_line")}
+    for sig, what, rec, out in cli["bad"]:
+        if sig in seen:
+            continue
+        seen.add(sig)
+        res.violation(sig, what, {"kind": "failing-input", "input": L.short_input(rec["In"]), "observed_by_hook": rec["Obs"], "cli_output": out[:3000],
+                                  "replay": "shakespeare -n -p - < (the Stdin text)"})
     dis = {"Mparse": L.global_indices(vals["Mparse"], off["parse"]), "Mread": L.global_indices(vals["Mread"], off["read"]),
            "Medit": L.global_indices(vals["Medit"], off["edit"]), "Mshort": L.global_indices(vals["Mshort"], off["shorthand"])}
     notes = L.global_indices(vals["Knote"], off["parse"])
@@ -146,8 +201,8 @@ def run(tier, seed):
                               {"kind": "correspondence", "query": name, "n_disagreements": len(dis[name]), "first": rec},
                               no_input=True)
     res.coverage["disagreements"] = {"model_vs_impl": {k: len(v) for k, v in dis.items()},
-                                     "oracle_failures": sum(1 for c in codes if c != 0) + sum(len(x or []) for x in vals["Oread"]) + sum(len(x or []) for x in vals["Oedit"]) + sum(len(x or []) for x in vals["Oshort"])}
-    res.coverage["disagreements_checked"] = len(codes) + summary["counts"]["read"] + summary["counts"]["edit"] + summary["counts"].get("shorthand", 0)
+                                     "oracle_failures": sum(1 for c in codes + scodes if c != 0) + sum(len(x or []) for x in vals["Oread"]) + sum(len(x or []) for x in vals["Oedit"]) + sum(len(x or []) for x in vals["Oshort"])}
+    res.coverage["disagreements_checked"] = len(codes) + len(scodes) + summary["counts"]["read"] + summary["counts"]["edit"] + summary["counts"].get("shorthand", 0)
     return res.finish()
 
 
